@@ -200,6 +200,39 @@ func checkC22(c *Check) {
 				map[string]interface{}{"kind": "cbe-idempotence", "events": evs, "doc": hex.EncodeToString(doc), "again": hex.EncodeToString(buf.Bytes())})
 		}
 	})
+	// the same for every fixed sample of the numeric classes on its own (the corpus draws only some of them)
+	smp := newSampler(1)
+	var singles []AEv
+	for i := 0; i < 64; i++ {
+		singles = append(singles, floatEv("OnBigDecimalFloat", smp.bdfloatK(), ""))
+		singles = append(singles, floatEv("OnDecimalFloat", smp.dfloatK(), ""))
+		singles = append(singles, floatEv("OnBigFloat", smp.bigfloatK(), ""))
+	}
+	seen := map[string]bool{}
+	for _, e := range singles {
+		if seen[e.M+e.K] {
+			continue
+		}
+		seen[e.M+e.K] = true
+		evs := []AEv{newEv("OnBeginDocument"), newEv("OnVersion"), newEv("OnList"), e, newEv("OnEndContainer"), newEv("OnEndDocument")}
+		doc, rej, _ := encodeCBE(evs, cfg)
+		if rej >= 0 {
+			continue
+		}
+		var buf bytes.Buffer
+		enc := cbe.NewEncoder(cfg)
+		enc.PrepareToEncode(&buf)
+		err := cbe.NewDecoder(cfg).DecodeDocument(doc, rules.NewRules(enc, cfg))
+		c.Count("idem-single"+evsString(evs), true)
+		if err != nil {
+			continue
+		}
+		c.AddTraces(1)
+		if !bytes.Equal(buf.Bytes(), doc) {
+			c.Violation(fmt.Sprintf("decoding %x and encoding it again gives %x; stream %s", doc, buf.Bytes(), evsString(evs)),
+				map[string]interface{}{"kind": "cbe-idempotence", "events": evs, "doc": hex.EncodeToString(doc), "again": hex.EncodeToString(buf.Bytes())})
+		}
+	}
 	_ = strings.Join
 }
 
